@@ -1,16 +1,15 @@
 import Geo.Props.C08
-open Geo
-#print axioms T08_translation_2d
-#print axioms T08_translation_3d
-#print axioms T08_scaling_3d
-#print axioms T08_scaling_2d
-#print axioms T08_rot2_action
-#print axioms T08_rot2_compose
-#print axioms T08_rot2_additive
-#print axioms rot3_entries
-#print axioms T08_rot3_orthogonal
-#print axioms T08_rot3_det
-#print axioms T08_rot3_axis_trace
-#print axioms T08_reflection_2d
-#print axioms T08_reflection_3d
-#print axioms T08_from_points
+#print axioms Geo.T08_translation_2d
+#print axioms Geo.T08_translation_3d
+#print axioms Geo.T08_scaling_3d
+#print axioms Geo.T08_scaling_2d
+#print axioms Geo.T08_rot2_action
+#print axioms Geo.T08_rot2_compose
+#print axioms Geo.T08_rot2_additive
+#print axioms Geo.rot3_entries
+#print axioms Geo.T08_rot3_orthogonal
+#print axioms Geo.T08_rot3_det
+#print axioms Geo.T08_rot3_axis_trace
+#print axioms Geo.T08_reflection_2d
+#print axioms Geo.T08_reflection_3d
+#print axioms Geo.T08_from_points
